@@ -162,13 +162,13 @@ SolverOpts gen_opts(Rng& g, long max_nodes, bool c01_set)
     SolverOpts o;
     for (int attempt = 0; attempt < 100; attempt++) {
         o.prob = gen_problem(g, false, false);
-        static const double R0s[] = {1e-8, 1e-5, 1e-5, 1e-3, 0.1};
-        o.R0                      = R0s[g.below(5)];
+        static const double R0s[] = {1e-8, 1e-5, 1e-5, 1e-3, 0.1, 0.1, 0.3, 0.5};
+        o.R0                      = R0s[g.below(8)];
         o.nr_exp                  = g.range(c01_set ? 4 : 2, 6);
         // angular resolution comparable to the radial one (what the automatic choice -1 produces); now and then
         // up to 8x finer
         o.ntheta_exp = g.chance(0.4) ? -1 : std::min(8, std::max(c01_set ? 5 : 3, o.nr_exp + g.range(0, 2) + (g.chance(0.1) ? 1 : 0)));
-        o.aniso                   = g.chance(0.35) ? g.range(1, 3) : 0;
+        o.aniso                   = (g.chance(0.35) && o.R0 < 0.3) ? g.range(1, 3) : 0; // (the refined window does not fit a thin annulus)
         o.divideBy2               = g.chance(0.3) ? g.range(1, 2) : 0;
         if (o.nodes() > max_nodes)
             continue;
@@ -180,7 +180,7 @@ SolverOpts gen_opts(Rng& g, long max_nodes, bool c01_set)
         o.aniso      = 0;
         o.divideBy2  = 0;
     }
-    o.dirbc         = g.chance(0.5);
+    o.dirbc         = g.chance(0.5) || o.R0 >= 0.3; // annular domains (sizeable hole) with the Dirichlet treatment
     o.stencil       = g.chance(0.5) ? 1 : 0;
     o.cache_coeff   = o.stencil == 0 ? true : g.chance(0.6);
     o.cache_geo     = o.stencil == 0 ? true : g.chance(0.6);
